@@ -818,7 +818,7 @@ _scale = {}
 
 def budget_scale(mod):
     """deterministic cost measure of a module: interpreter call/return events of validate() on its first three
-    valid numbers (after a warm-up run that fills the numdb caches).  Modules that need more than 1500 events
+    valid numbers (after a warm-up run that fills the numdb caches).  Modules that need more than 1000 events
     per call (mac: ~47000, cn.ric, at.postleitzahl, gs1_128) get proportionally fewer generated inputs so that
     one module cannot dominate the wall time.  Timing is deliberately NOT used (determinism)."""
     name = mod.__name__
@@ -841,12 +841,21 @@ def budget_scale(mod):
     except Exception:   # noqa: B902
         sys.setprofile(None)
     events = cnt[0] / max(1, len(vs))
-    _scale[name] = min(1.0, 1500.0 / events) if events else 1.0
+    _scale[name] = min(1.0, 1000.0 / events) if events else 1.0
     return _scale[name]
 
 
 def scaled(n, scale):
     return n if scale >= 1 or n <= 0 else max(1, int(n * scale))
+
+
+def scaled_params(params, scale):
+    """integer budgets scaled; the exhaustive decoration level ('full') is dropped for expensive modules"""
+    out = dict((k, scaled(v, scale) if isinstance(v, int) and not isinstance(v, bool) else v)
+               for k, v in params.items())
+    if scale < 0.5 and 'full' in out:
+        out['full'] = 0
+    return out
 
 
 # ----------------------------------------------------------------------------- command line
